@@ -2172,6 +2172,16 @@ func (c *Conn) handleRecordContent(
 ) (bool, packetOutcome, error) {
 	switch content := content.(type) {
 	case *protocol.ACK:
+		if _, is12 := c.state.(*dtlsstate.State12); is12 {
+			// ACK records exist in DTLS 1.3 only. Handing one to the DTLS 1.2 state machine made it
+			// parse, and answer, its current flight once more: a 15-byte unauthenticated datagram drew a
+			// fresh HelloVerifyRequest (or the final flight of a completed handshake) every time.
+			c.log.Debugf("discarded ACK record on a DTLS 1.2 connection (epoch: %d, seq: %d)",
+				prepared.header.Epoch, prepared.header.SequenceNumber,
+			)
+
+			return false, packetOutcome{}, nil
+		}
 		isLatestSeqNum := prepared.markPacketAsValid()
 
 		return isLatestSeqNum, packetOutcome{
